@@ -14,6 +14,11 @@ func init() {
 		&slip.FuncDoc{
 			Name: "list*",
 			Args: []*slip.DocArg{
+				{
+					Name: "object",
+					Type: "object",
+					Text: "The first element or, if there are no more _objects_, the result.",
+				},
 				{Name: "&rest"},
 				{Name: "objects", Type: "object"},
 			},
